@@ -316,8 +316,10 @@ impl std::str::FromStr for Deb822 {
                                     // ignore comments
                                     tokens.next();
                                 }
-                                Some((SyntaxKind::NEWLINE, n)) => {
-                                    current_paragraph.last_mut().unwrap().value.push_str(n);
+                                Some((SyntaxKind::NEWLINE, _)) => {
+                                    // the lines of a value are joined by LF, whichever line
+                                    // break (LF or a bare CR) the text uses
+                                    current_paragraph.last_mut().unwrap().value.push('\n');
                                     tokens.next();
                                     break;
                                 }
@@ -335,7 +337,7 @@ impl std::str::FromStr for Deb822 {
                     }
 
                     // Trim the trailing newline (absent if the last continuation
-                    // line is unterminated or ends in a carriage return)
+                    // line is unterminated)
                     let value = &mut current_paragraph.last_mut().unwrap().value;
                     if value.ends_with('\n') {
                         value.pop();
